@@ -71,17 +71,18 @@ func (a *AttrConditionPlanner) Process(ctx *shared.PlannerContext) (sql.ISelect,
 }
 
 func (a *AttrConditionPlanner) maybeCreateWhere() error {
-	if len(a.sqlConds) > 0 {
-		return nil
-	}
+	// the planner is changed only after every term was converted: a Process that fails on one of
+	// the terms leaves nothing behind for the next one
+	sqlConds := make([]sql.SQLCondition, 0, len(a.Terms))
 	for _, t := range a.Terms {
 		sqlTerm, err := a.getTerm(t)
 		if err != nil {
 			return err
 		}
-		a.sqlConds = append(a.sqlConds, sqlTerm)
-		a.where = append(a.where, sqlTerm)
+		sqlConds = append(sqlConds, sqlTerm)
 	}
+	a.sqlConds = sqlConds
+	a.where = append([]sql.SQLCondition(nil), sqlConds...)
 	return nil
 }
 
